@@ -21,7 +21,7 @@ Not decided: liveness for every mempool content; CometBFT's exact byte accountin
 import re
 
 from facts import short_name
-from kinds import (k1_callers, comparisons, bool_payload_edges, on_all_success_paths, error_cut,
+from kinds import (rel, k1_callers, comparisons, bool_payload_edges, on_all_success_paths, error_cut,
                    result_blocks, all_edges_of_flag)
 
 CRATES = ["astria_sequencer.lib", "astria_core.lib"]
@@ -157,8 +157,7 @@ def p3(prog, rep):
     rep.floor("P3", nsw, 4, "matches on the Proposal variant")
     seq = [c for c in body.calls if c.is_(BSC + "sequencer_has_space")]
     cmt = [c for c in body.calls if c.is_(BSC + "cometbft_has_space")]
-    grp = [c for c in comparisons(body) if c.op == "Gt" and "group(tx)" in c.a
-           and "current_tx_group(proposal_info)" in c.b]
+    grp = rel(body, "Gt", r"group\(tx\)", r"current_tx_group\(proposal_info\)")
     ex = body.calls_to(A + "execute_transaction")
     e, bl = error_cut(body)
     ok_returns = set(result_blocks(body, "Ok"))
@@ -251,12 +250,10 @@ def p4(prog, rep):
         b = prog.main_body(BSC + fn)
         assigns = [(i, line) for i, j, p, rv, line in b.assigns()
                    if p.endswith("." + field) and p.split("|")[0] in ("1",)]
-        cm = [c for c in comparisons(b) if c.op in ("Gt", "Le", "Lt", "Ge") and mx in c.a + c.b]
+        cm = rel(b, "Le", r".", re.escape(mx))
         ok = bool(assigns) and bool(cm)
         if ok:
-            c = cm[0]
-            within = c.false_edges if c.op in ("Gt",) and mx in c.b else c.true_edges
-            ok = all(b.must_pass_edges(set(within), i) for i, _ in assigns)
+            ok = all(b.must_pass_edges(set(cm[0].true_edges), i) for i, _ in assigns)
         rep.check(ok, "P4", f"{fn}:assign<=within-max",
                   f"{fn} can grow the counter beyond {mx}", b.describe())
     n = 0
